@@ -156,6 +156,17 @@ class DynV(V):
         return f"dyn<{self.name}>"
 
 
+class PyFn(V):
+    """a function value implemented by the analyser: fn(state, args, expr) -> outcomes"""
+    __slots__ = ("fn", "name")
+
+    def __init__(self, fn, name="<builtin>"):
+        self.fn, self.name = fn, name
+
+    def __repr__(self):
+        return f"pyfn<{self.name}>"
+
+
 class Opaque(V):
     __slots__ = ("why",)
 
